@@ -92,6 +92,12 @@ std::string replay_case(Ctx& c, const std::string& text, const Body& body) {
       tp.continue_pseudo_randomly();
       return run_one(c, body, ti, v, tp, src);
     }
+    if (src.rfind("fuzz:", 0) == 0) {
+      Bytes b = unhex(src.substr(5));
+      bool acc = false, nc = false;
+      c.rep.current_case = "prop=" + c.rep.property + " type=" + t.name + " src=" + src;
+      return fuzz_one(c, t, c.rep.property == "C02", b.data(), b.size(), &acc, &nc);
+    }
     return "REPLAY: bad src";
   }
   return "REPLAY: type not in this shard: " + tname;
